@@ -276,7 +276,9 @@ func trivia(r *Rand, o *TextOpts, allowComment bool) string {
 		return " "
 	default:
 		if allowComment {
-			return Pick(r, []string{"; c\n", " ;comment [1] {x=y}\n", ";\n", "\n; two\n; lines\n", "; C[1]\n"})
+			return Pick(r, []string{"; c\n", " ;comment [1] {x=y}\n", ";\n", "\n; two\n; lines\n", "; C[1]\n",
+				// line-break-like characters other than LF do not end a comment
+				"; x\rD[\n", "; a\vb ]\n", "; a\fC[1\n", "; nel\u0085{ \n", "; ls\u2028[[\n", "; ps\u2029 }\n", "; cr\r\n", "; tab\there ]\n"})
 		}
 		return " "
 	}
